@@ -19,8 +19,11 @@ import (
 )
 
 type replayDriver struct {
-	name  string
-	match func(ob *Oblig) bool
+	// modelFree: the failing scenario does not depend on solver-chosen inputs (a fixed history fails), so the replay
+	// can run even when the solver gave no model (timeout / unknown on a quantified goal)
+	modelFree bool
+	name      string
+	match     func(ob *Oblig) bool
 	// extra terms to read from the model (besides the function's inputs)
 	terms func(ob *Oblig) []ModelVar
 	// build returns the package directory (relative to the repo) and the test source
@@ -30,6 +33,11 @@ type replayDriver struct {
 var replayDrivers []replayDriver
 
 func registerReplay(d replayDriver) { replayDrivers = append(replayDrivers, d) }
+
+func modelFreeDriver(ob *Oblig) bool {
+	d := driverFor(ob)
+	return d != nil && d.modelFree
+}
 
 func driverFor(ob *Oblig) *replayDriver {
 	for i := range replayDrivers {
@@ -262,7 +270,8 @@ func TestGocvReplay(t *testing.T) {
 
 func init() {
 	registerReplay(replayDriver{
-		name: "bpmn.ProcessSet.WaitUntilComplete twice",
+		modelFree: true,
+		name:      "bpmn.ProcessSet.WaitUntilComplete twice",
 		match: func(ob *Oblig) bool {
 			return ob.Class == "chan-close-once" && strings.HasPrefix(ob.Func, "bpmn.(*ProcessSet).WaitUntilComplete")
 		},
@@ -307,7 +316,8 @@ func TestGocvReplay(t *testing.T) {
 
 func init() {
 	registerReplay(replayDriver{
-		name: "bpmn.genericTask cancel with a pending request",
+		modelFree: true,
+		name:      "bpmn.genericTask cancel with a pending request",
 		match: func(ob *Oblig) bool {
 			return strings.HasPrefix(ob.Func, "bpmn.(*genericTask).run") && strings.Contains(ob.Name, "interrupt-cancels-a-pending-request")
 		},
@@ -370,7 +380,8 @@ func TestGocvReplay(t *testing.T) {
 
 func init() {
 	registerReplay(replayDriver{
-		name: "bpmn.catchEvent.ConsumeEvent on a node not yet reached",
+		modelFree: true,
+		name:      "bpmn.catchEvent.ConsumeEvent on a node not yet reached",
 		match: func(ob *Oblig) bool {
 			return ob.Class == "blocking" && strings.HasPrefix(ob.Func, "bpmn.(*catchEvent).ConsumeEvent")
 		},
@@ -421,7 +432,8 @@ func TestGocvReplay(t *testing.T) {
 
 func init() {
 	registerReplay(replayDriver{
-		name: "bpmn.Process.WaitUntilComplete after an expired wait",
+		modelFree: true,
+		name:      "bpmn.Process.WaitUntilComplete after an expired wait",
 		match: func(ob *Oblig) bool {
 			return (ob.Class == "blocking" || ob.Class == "closure-inv") && strings.HasPrefix(ob.Func, "bpmn.(*Process).WaitUntilComplete")
 		},
@@ -485,7 +497,8 @@ func TestGocvReplay(t *testing.T) {
 
 func init() {
 	registerReplay(replayDriver{
-		name: "bpmn.Process.StartAll with two start events",
+		modelFree: true,
+		name:      "bpmn.Process.StartAll with two start events",
 		match: func(ob *Oblig) bool {
 			return (strings.HasPrefix(ob.Func, "bpmn.(*Process).StartAll") || strings.HasPrefix(ob.Func, "bpmn.(*Process).StartWith")) &&
 				(strings.Contains(ob.Name, "completion-lock") || strings.Contains(ob.Name, "monitor"))
@@ -547,3 +560,171 @@ const twoStartsXML = `<?xml version="1.0" encoding="UTF-8"?>
     <bpmn:sequenceFlow id="f2" sourceRef="s2" targetRef="e2" />
   </bpmn:process>
 </bpmn:definitions>`
+
+// ---------------------------------------------------------------------------
+// driver: (*subProcess).NextAction — the inner completion monitor listens on the wrong tracer (C12): the parent's
+// token never continues past an embedded sub-process, the enclosing instance never completes.
+
+func init() {
+	registerReplay(replayDriver{
+		modelFree: true,
+		name:      "bpmn embedded sub-process: the enclosing instance completes",
+		match: func(ob *Oblig) bool {
+			return strings.HasPrefix(ob.Func, "bpmn.(*subProcess).NextAction") && strings.Contains(ob.Name, "inner-completion-is-watched")
+		},
+		build: func(ob *Oblig, m map[string]string) (string, string, bool) {
+			src := fmt.Sprintf(`package bpmn
+
+import (
+	"context"
+	"encoding/xml"
+	"os"
+	"testing"
+	"time"
+
+	"github.com/olive-io/bpmn/schema"
+	"github.com/olive-io/bpmn/v2/pkg/tracing"
+)
+
+// generated by gocv for obligation %s
+func TestGocvReplay(t *testing.T) {
+	src, err := os.ReadFile("testdata/subprocess.bpmn")
+	if err != nil {
+		t.Fatal(err)
+	}
+	var defs schema.Definitions
+	if err := xml.Unmarshal(src, &defs); err != nil {
+		t.Fatal(err)
+	}
+	proc, err := NewEngine().NewProcess(&defs)
+	if err != nil {
+		t.Fatal(err)
+	}
+	ctx, cancel := context.WithTimeout(context.Background(), 4*time.Second)
+	defer cancel()
+	traces := proc.Tracer().SubscribeChannel(make(chan tracing.ITrace, 64))
+	if err := proc.StartAll(ctx); err != nil {
+		t.Fatal(err)
+	}
+	go func() {
+		for tr := range traces {
+			if tt, ok := tracing.Unwrap(tr).(TaskTrace); ok {
+				tt.Do()
+			}
+		}
+	}()
+	if !proc.WaitUntilComplete(ctx) {
+		t.Fatal("the instance containing an embedded sub-process did not complete within four seconds: the parent's token never continued past the sub-process")
+	}
+}
+`, ob.Name)
+			return ".", src, true
+		},
+	})
+}
+
+// ---------------------------------------------------------------------------
+// driver: (*subProcess).NextAction — the same embedded sub-process entered a second time (C12): only the first entry
+// starts an inner completion monitor.
+
+func init() {
+	registerReplay(replayDriver{
+		modelFree: true,
+		name:      "bpmn embedded sub-process entered twice in sequence",
+		match: func(ob *Oblig) bool {
+			return strings.HasPrefix(ob.Func, "bpmn.(*subProcess).NextAction") && strings.Contains(ob.Name, "each-entry-gets-its-own")
+		},
+		build: func(ob *Oblig, m map[string]string) (string, string, bool) {
+			return ".", "// generated by gocv for obligation " + ob.Name + "\n" + subprocessTwiceTest, true
+		},
+	})
+}
+
+const subprocessTwiceTest = `package bpmn
+
+import (
+	"context"
+	"encoding/xml"
+	"sync/atomic"
+	"testing"
+	"time"
+
+	"github.com/olive-io/bpmn/schema"
+	"github.com/olive-io/bpmn/v2/pkg/tracing"
+)
+
+const reentryXML = ` + "`" + `<?xml version="1.0" encoding="UTF-8"?>
+<bpmn:definitions xmlns:bpmn="http://www.omg.org/spec/BPMN/20100524/MODEL" id="D" targetNamespace="http://bpmn.io/schema/bpmn">
+  <bpmn:process id="P" isExecutable="true">
+    <bpmn:startEvent id="s"><bpmn:outgoing>f0</bpmn:outgoing></bpmn:startEvent>
+    <bpmn:parallelGateway id="fork"><bpmn:incoming>f0</bpmn:incoming><bpmn:outgoing>fa</bpmn:outgoing><bpmn:outgoing>fb</bpmn:outgoing></bpmn:parallelGateway>
+    <bpmn:task id="a"><bpmn:incoming>fa</bpmn:incoming><bpmn:outgoing>ma</bpmn:outgoing></bpmn:task>
+    <bpmn:task id="b"><bpmn:incoming>fb</bpmn:incoming><bpmn:outgoing>mb</bpmn:outgoing></bpmn:task>
+    <bpmn:exclusiveGateway id="merge"><bpmn:incoming>ma</bpmn:incoming><bpmn:incoming>mb</bpmn:incoming><bpmn:outgoing>f1</bpmn:outgoing></bpmn:exclusiveGateway>
+    <bpmn:subProcess id="sub"><bpmn:incoming>f1</bpmn:incoming><bpmn:outgoing>f2</bpmn:outgoing>
+      <bpmn:startEvent id="is"><bpmn:outgoing>g0</bpmn:outgoing></bpmn:startEvent>
+      <bpmn:task id="inner"><bpmn:incoming>g0</bpmn:incoming><bpmn:outgoing>g1</bpmn:outgoing></bpmn:task>
+      <bpmn:endEvent id="ie"><bpmn:incoming>g1</bpmn:incoming></bpmn:endEvent>
+      <bpmn:sequenceFlow id="g0" sourceRef="is" targetRef="inner" />
+      <bpmn:sequenceFlow id="g1" sourceRef="inner" targetRef="ie" />
+    </bpmn:subProcess>
+    <bpmn:endEvent id="e"><bpmn:incoming>f2</bpmn:incoming></bpmn:endEvent>
+    <bpmn:sequenceFlow id="f0" sourceRef="s" targetRef="fork" />
+    <bpmn:sequenceFlow id="fa" sourceRef="fork" targetRef="a" />
+    <bpmn:sequenceFlow id="fb" sourceRef="fork" targetRef="b" />
+    <bpmn:sequenceFlow id="ma" sourceRef="a" targetRef="merge" />
+    <bpmn:sequenceFlow id="mb" sourceRef="b" targetRef="merge" />
+    <bpmn:sequenceFlow id="f1" sourceRef="merge" targetRef="sub" />
+    <bpmn:sequenceFlow id="f2" sourceRef="sub" targetRef="e" />
+  </bpmn:process>
+</bpmn:definitions>` + "`" + `
+
+func TestGocvReplay(t *testing.T) {
+	var defs schema.Definitions
+	if err := xml.Unmarshal([]byte(reentryXML), &defs); err != nil {
+		t.Fatal(err)
+	}
+	proc, err := NewEngine().NewProcess(&defs)
+	if err != nil {
+		t.Fatal(err)
+	}
+	ctx, cancel := context.WithTimeout(context.Background(), 4*time.Second)
+	defer cancel()
+	traces := proc.Tracer().SubscribeChannel(make(chan tracing.ITrace, 64))
+	if err := proc.StartAll(ctx); err != nil {
+		t.Fatal(err)
+	}
+	var inner, ends atomic.Int32
+	hold := make(chan TaskTrace, 4)
+	go func() {
+		for tr := range traces {
+			switch tt := tracing.Unwrap(tr).(type) {
+			case TaskTrace:
+				id, _ := tt.GetActivity().Element().Id()
+				if *id == "inner" {
+					inner.Add(1)
+				}
+				if *id == "b" {
+					hold <- tt // answered later: the second token enters the sub-process after the first has left
+					continue
+				}
+				tt.Do()
+			case VisitTrace:
+				if id, ok := tt.Node.Id(); ok && *id == "e" {
+					ends.Add(1)
+					select {
+					case h := <-hold:
+						h.Do()
+					default:
+					}
+				}
+			}
+		}
+	}()
+	ok := proc.WaitUntilComplete(ctx)
+	t.Logf("complete=%v inner requests=%d end visits=%d", ok, inner.Load(), ends.Load())
+	if !ok || inner.Load() != 2 || ends.Load() != 2 {
+		t.Fatalf("sub-process entered twice in sequence: complete=%v inner requests=%d end visits=%d (want true, 2, 2)", ok, inner.Load(), ends.Load())
+	}
+}
+`
